@@ -16,7 +16,7 @@ RULE = (
     "for event and query_bucket_eventcount(b) equals ds[b].get_eventcount(S,E) with S/E the instants handed to query(). "
     "Non-trivial = the program applies an in-place annotator to the direct result of query_bucket, or raises after having done so."
 )
-ASSUMPTIONS = ["a failing query may raise anything; only the store's contents are judged", "windows satisfy start <= end"]
+ASSUMPTIONS = ["a failing query may raise anything; only the store's contents are judged", "about one window in eight has its end before its start (the comparison with the direct read applies all the same)", "the present, as seen by the query modules through their `datetime` name, is pinned inside the range of the stored events"]
 ANNOT = {"categorize", "tag", "split_url_events", "period_union", "flood", "simplify_window_titles", "chunk_events_by_key", "merge_events_by_keys"}
 BASE_US = c11.BASE_US
 BUCKETS = c11.BUCKETS
@@ -55,6 +55,8 @@ def strategy(draw, tier="quick"):
         "corrupt": corrupt,
         "win": {"s": s, "len": ln, "tz": draw(gen.offsets()), "tz2": draw(gen.offsets())},
         "qb": draw(st.integers(0, 1)),
+        "inverted": draw(st.integers(0, 7)) == 0,
+        "now_s": draw(st.sampled_from([10, 10, 5, 15, 100000])),
     }
 
 
@@ -105,7 +107,10 @@ def run_case(case):
     E = gen.dt_at(BASE_US + w["s"] + w["len"], w["tz2"])
     text = _text(case)
     raised = None
-    with stores.store(be) as ds:
+    if case.get("inverted") and w["len"] > 0:
+        S, E = E, S  # a window whose end lies before its start: still "the query's start and end instants"
+    with stores.store(be) as ds, stores.pinned_now(["aw_query.query2", "aw_query.functions"], BASE_US + case.get("now_s", 10) * 10**6):
+        # (the present, for any query code that asks, lies inside the range of the stored events and of most windows)
         with sut(f"{be}: setup"):
             c11.build_store(ds, case["store"], Event)
             before = stores.api_dump(ds)
